@@ -1,6 +1,7 @@
 #!/usr/bin/env python3
 """Regenerates MANIFEST.json from the registry below (kept valid at all times)."""
 import json
+import re
 import os
 
 HERE = os.path.dirname(os.path.dirname(os.path.abspath(__file__)))
@@ -9,7 +10,26 @@ ALL = ["C%02d" % i for i in range(1, 21)]
 CHECKS = {}
 
 
+def _findings(pid):
+    """current tally from known_findings.jsonl (so that the notes never lag behind the file)"""
+    import json as _json
+    known, commits = set(), set()
+    path = os.path.join(os.path.dirname(os.path.dirname(os.path.abspath(__file__))), "known_findings.jsonl")
+    for line in open(path):
+        d = _json.loads(line)
+        if d.get("property") != pid:
+            continue
+        if d.get("status") == "known":
+            known.add(d["signature"])
+        elif d.get("status") == "fixed":
+            commits.update(str(d.get("commit", "")).split(","))
+    commits.discard("")
+    return " Tally from known_findings.jsonl: %d known-finding signature(s); %d repair commit(s) in /repo." % (
+        len(known), len(commits))
+
+
 def reg(pid, category, text, note, technique, design_ref):
+    note = note.rstrip() + _findings(pid)
     CHECKS[pid] = {
         "property_id": pid,
         "quick_cmd": "./check %s --tier quick" % pid,
@@ -55,7 +75,7 @@ reg("C04", "exploration",
     "corrected read of that chromosome, supporting reads exist, .nic/.nnic labels match the annotation, intron chains "
     "are unique per strand, annotation-free runs report only novel_gene_* genes; a second stage puts an unannotated "
     "gene across a split point of a locus processed in several regions.",
-    "One known finding (mono-intron models differing only in polyA site) is listed in known_findings.jsonl.",
+    "Known findings: mono-intron models differing only in polyA site; models built per processing region.",
     "property-based testing (Hypothesis) with recount oracle over outputs and inputs", "DESIGN.md section 4 C04")
 
 reg("C13", "exploration",
@@ -79,7 +99,7 @@ reg("C02", "exploration",
     "cell of gene/transcript/transcript-model count tables is recounted from read_assignments.tsv / "
     "transcript_model_reads.tsv with the documented weights (zero-or-exact-sum rule, never-zeroed rule, special "
     "lines, TPM rescaling).",
-    "Two known findings (multi-locus reads counted fully at every locus) are listed in known_findings.jsonl; the "
+    "Known findings: reads kept on several loci are counted fully at every locus; the "
     "__ambiguous/__no_feature unit (read vs record) is accepted either way for multi-locus reads.",
     "property-based testing (Hypothesis) with independent recount oracle", "DESIGN.md section 4 C02")
 
@@ -88,8 +108,8 @@ reg("C09", "exploration",
     "16 interpreter hash seeds per run; the run must finish, every grouped cell equals a per-group recount with the "
     "documented weights, groups sum to the ungrouped table, matrix and linear renderings carry identical triples, "
     "grouped TPM columns rescale their own column.",
-    "Group of a read derived from docs/cmd.md; shares the C02 weighting model; two repaired defects listed as fixed in "
-    "known_findings.jsonl.",
+    "Group of a read derived from docs/cmd.md; shares the C02 weighting model.",
+    
     "property-based testing (Hypothesis) with recount oracle + matrix/linear differential across hash seeds",
     "DESIGN.md section 4 C09")
 
@@ -99,8 +119,8 @@ reg("C05", "exploration",
     "windows whose reads are processed in >= 3 regions) in both memory modes, plus flag/MAPQ "
     "mixtures; a three-valued accounting oracle computed from BAM flags only (MUST / MUST-NOT / MAY be reported), "
     "identical-record detection and log statistics versus BAM record counts.",
-    "Filters as documented in docs/cmd.md; reads with other alignments are MAY; two repaired defects and one known "
-    "finding listed in known_findings.jsonl.",
+    "Filters as documented in docs/cmd.md; reads with other alignments are MAY; known finding: a bridging read "
+    "assigned to different genes in two regions keeps two identical BED records.",
     "property-based testing (Hypothesis) with structure-aimed generators and accounting oracle",
     "DESIGN.md section 4 C05")
 
@@ -109,8 +129,7 @@ reg("C18", "exploration",
     "coordinates, soft-masked segments and reads of both orientations; a FASTA-only oracle recomputes the Canonical "
     "flag of every stranded row and model and the strand of novel spliced models, and a metamorphic relation compares "
     "each read's flag between the full run and a run on a random subset of the reads.",
-    "Rows without strand are compared between runs only; model-strand oracle is three-valued; three repaired defects "
-    "listed as fixed in known_findings.jsonl.",
+    "Rows without strand are compared between runs only; model-strand oracle is three-valued.",
     "property-based testing (Hypothesis) with FASTA-only oracle + metamorphic read-subset relation",
     "DESIGN.md section 4 C18")
 
@@ -120,7 +139,7 @@ reg("C16", "exploration",
     "CIGARs through pysam + AlignmentInfo and alignments with aligned polyA/polyT tail exons through the real "
     "PolyAFinder/PolyAFixer with validity + projection oracle for the trimmed exon list and tail positions.",
     "Segments without an aligned base are UNSPECIFIED; cigar-operation index blocks are outside the statement and not "
-    "checked; one repaired defect (shift_polya) listed as fixed.",
+    "checked.",
     "exhaustive bounded enumeration + property-based testing (Hypothesis) + coverage-guided fuzzing (atheris/libFuzzer driving the same strategies) against a reference model",
     "DESIGN.md section 4 C16")
 
@@ -131,7 +150,7 @@ reg("C15", "exploration",
     "through the real TmpFileAssignmentPrinter and both loaders; pipeline runs saved with --keep_tmp are re-run "
     "from --read_assignments and all outputs compared.",
     "Readers are driven through a strict byte stream that refuses short reads (a misaligned reader stops instead of "
-    "looping); two repaired defects listed as fixed.",
+    "looping).",
     "property-based testing (Hypothesis) incl. stateful rule-based machine, coverage-guided fuzzing (atheris/libFuzzer) of the object round-trip; round-trip + differential oracles",
     "DESIGN.md section 4 C15")
 
@@ -140,8 +159,8 @@ reg("C08", "exploration",
     "MultimapResolver and compared with a reference model of the documented priority order (class dominance, ties "
     "kept and flagged ambiguous, duplicates identified, order independence); pipeline-level paralogous loci check "
     "suppression of losers in TSV/BED/count tables, default vs --high_memory and permuted chromosome / record order.",
-    "Within the inconsistent and uninformative classes only order-independence and non-emptiness are required; one "
-    "repaired defect and two known findings (shared root cause with C02) listed.",
+    "Within the inconsistent and uninformative classes only order-independence and non-emptiness are required; "
+    "known findings share their root cause with C02.",
     "property-based testing (Hypothesis) with reference model + permutation (metamorphic) relation",
     "DESIGN.md section 4 C08")
 
@@ -152,7 +171,7 @@ reg("C01", "exploration",
     "length and be unique to it when nothing else is compatible; F reads (wide-margin structural changes verified by "
     "the reference model before the run) must never be consistent. All four matching strategies and three data types.",
     "Three-valued structural oracle (vlib/refmodel/compat.py) with wide margins; grey cases are counted, never judged; "
-    "one known finding (terminal_exon_misalignment without size bound).",
+    "known findings: terminal_exon_misalignment without size bound; genomic A-run at the 3' end taken for a tail.",
     "property-based testing (Hypothesis) with generator-carried ground truth and three-valued structural oracle",
     "DESIGN.md section 4 C01")
 
@@ -186,8 +205,7 @@ reg("C10", "exploration",
     "unaligned reads and polyA content); every experiment is also run alone; the "
     "per-experiment directories must contain the same files with the same bytes (modulo header) and the combined_* "
     "tables must carry exactly the per-experiment columns.",
-    "Stand-alone reference = one-experiment YAML/list with the same name and options; four repaired defects listed as "
-    "fixed.",
+    "Stand-alone reference = one-experiment YAML/list with the same name and options.",
     "property-based testing (Hypothesis) over operation sequences with differential oracle (joint vs stand-alone)",
     "DESIGN.md section 4 C10")
 
@@ -200,7 +218,7 @@ reg("C11", "exploration",
     "above the region-splitting thresholds by multiples of the 256-bp bin.",
     "Reads whose tail lies within 2 bp of a tail-distance threshold are compared separately (known finding: polyT "
     "position convention, pinned by the repository's tests); inherent ties (both terminal blocks shorter than the "
-    "fake-exon bound) and near-identical junctions are UNSPECIFIED; five repaired defects listed as fixed.",
+    "fake-exon bound) and near-identical junctions are UNSPECIFIED.",
     "property-based testing (Hypothesis) with metamorphic relations (translation, reflection)",
     "DESIGN.md section 4 C11")
 
@@ -211,7 +229,7 @@ reg("C07", "fault_enumeration",
     "the mutation, resumes it with --resume and compares every final output with an uninterrupted run: the resumed "
     "run must exit 0 with identical files. Exhaustive per scenario.",
     "Crash model: os._exit at Python-level mutations of the main process with --threads 1 (unflushed buffers lost); "
-    "crashes inside sqlite/htslib are one point each; four repaired defects listed as fixed.",
+    "crashes inside sqlite/htslib are one point each.",
     "fault injection with exhaustive crash-point enumeration over generated scenarios; differential oracle",
     "DESIGN.md section 4 C07")
 reg("C20", "exploration",
@@ -220,8 +238,7 @@ reg("C20", "exploration",
     "chunk, close and rename of the shared JSON files and around the real gffutils conversion; the schedule is a "
     "Hypothesis-drawn sequence (replayable); every process must finish and use a database built from its own "
     "annotation. A smoke stage starts 2-6 real processes together and compares each with a solo run.",
-    "Assumes the file system is the only channel between runs and that rename(2)/a single write(2) are atomic; one "
-    "repaired defect listed as fixed.",
+    "Assumes the file system is the only channel between runs and that rename(2)/a single write(2) are atomic.",
     "property-based testing over harness-owned schedules (cooperative scheduler) + differential smoke runs",
     "DESIGN.md section 4 C20")
 
